@@ -290,6 +290,124 @@ Section FramedProofs.
     - rewrite Hread. cbn. auto.
   Qed.
 
+  (* ---- a stream that ends INSIDE a frame (the peer went away in mid-frame): everything complete is delivered as above,
+     the unfinished frame is never delivered, and the end of the stream is reported as Disconnected ---- *)
+  Lemma prefix_of_prefix (a b : bytes) k (g : bytes) : a ++ b = firstn k g -> a = firstn (length a) g.
+  Proof.
+    intros H. assert (length a <= k)%nat as Hk.
+    { assert (length (a ++ b) <= k)%nat by (rewrite H; apply firstn_le_length). rewrite app_length in *. lia. }
+    assert (firstn (length a) (a ++ b) = a) as E by (rewrite firstn_app, Nat.sub_diag, firstn_all; cbn; apply app_nil_r).
+    rewrite H, firstn_firstn in E. rewrite Nat.min_l in E by exact Hk. congruence.
+  Qed.
+
+  Lemma read_step_tail g k tr : wf g -> (k < length g)%nat -> Forall ev_ok tr -> forall buf fs,
+    Forall wf fs -> buf ++ data_of tr = concat fs ++ firstn k g ->
+    (exists f fs' buf' tr' pre, fs = f :: fs' /\ tr = pre ++ tr' /\ Forall is_data pre /\
+        read buf (tr ++ [Eof]) = (expected_frame f, buf', tr' ++ [Eof]) /\
+        buf' ++ data_of tr' = concat fs' ++ firstn k g)
+    \/ (exists e buf' tr' pre, tr = pre ++ e :: tr' /\ Forall is_data pre /\ is_err e /\
+        read buf (tr ++ [Eof]) = (transient_of packet e, buf', tr' ++ [Eof]) /\
+        buf' ++ data_of tr' = concat fs ++ firstn k g)
+    \/ (fs = [] /\ Forall is_data tr /\ exists buf', read buf (tr ++ [Eof]) = ([Ret RDisconnected], buf', [])).
+  Proof.
+    intros Hg Hk. induction 1 as [|e tr He Htr IH]; intros buf fs Hwf Heq.
+    - cbn [data_of] in Heq. rewrite app_nil_r in Heq. subst buf.
+      destruct fs as [|f fs'].
+      + right. right. cbn [concat app]. split; [reflexivity|]. split; [constructor|].
+        exists (firstn k g). rewrite read_unfold, try_decode_prefix by assumption. reflexivity.
+      + left. inversion Hwf as [|? ? Hf Hfs]; subst.
+        exists f, fs', (concat fs' ++ firstn k g), [], []. cbn [concat app data_of].
+        rewrite <- app_assoc, read_unfold, try_decode_complete by exact Hf.
+        repeat split; auto. apply app_nil_r.
+    - destruct fs as [|f fs'].
+      + (* only the unfinished frame is left *)
+        cbn [concat app] in Heq.
+        assert (try_decode buf = None) as Hnone.
+        { rewrite (prefix_of_prefix _ _ _ _ Heq). apply try_decode_prefix; [exact Hg|].
+          assert (length (buf ++ data_of (e :: tr)) <= k)%nat by (rewrite Heq; apply firstn_le_length).
+          rewrite app_length in *. lia. }
+        destruct e as [bs|c| |]; try contradiction.
+        * destruct bs as [|b bs]; [contradiction|].
+          cbn [data_of] in Heq. rewrite app_assoc in Heq.
+          assert (read buf ((Data (b :: bs) :: tr) ++ [Eof]) = read (buf ++ b :: bs) (tr ++ [Eof])) as Hrd.
+          { rewrite read_unfold, Hnone. reflexivity. }
+          rewrite Hrd.
+          destruct (IH (buf ++ b :: bs) [] Hwf Heq) as
+            [[f0 [fs0 [buf' [tr' [pre [Hfs0 _]]]]]]
+            |[[e0 [buf' [tr' [pre [Htr' [Hpre' [He0 [Hread Hinv]]]]]]]]
+             |[_ [Hdat [buf' Hread]]]]]; [discriminate| |].
+          -- right. left. exists e0, buf', tr', (Data (b :: bs) :: pre).
+             split; [cbn [app]; congruence|].
+             split; [constructor; [exact I|exact Hpre']|]. split; [exact He0|]. split; assumption.
+          -- right. right. split; [reflexivity|]. split; [constructor; [exact I|exact Hdat]|].
+             exists buf'. exact Hread.
+        * right. left. exists (RdErr c), buf, tr, []. cbn [app data_of concat] in *.
+          rewrite read_unfold, Hnone. repeat split; auto.
+        * right. left. exists Elapsed, buf, tr, []. cbn [app data_of concat] in *.
+          rewrite read_unfold, Hnone. repeat split; auto.
+      + inversion Hwf as [|? ? Hf Hfs]; subst. cbn [concat] in Heq. rewrite <- app_assoc in Heq.
+        destruct (le_lt_dec (length f) (length buf)) as [Hle|Hlt].
+        * destruct (app_split_le _ _ _ _ Heq Hle) as [r [-> Hr]].
+          left. exists f, fs', r, (e :: tr), []. cbn [app].
+          rewrite read_unfold, try_decode_complete by exact Hf. repeat split; auto.
+        * pose proof (app_split_lt _ _ _ _ Heq Hlt) as Hpre.
+          assert (try_decode buf = None) as Hnone.
+          { rewrite Hpre. apply try_decode_prefix; assumption. }
+          destruct e as [bs|c| |]; try contradiction.
+          -- destruct bs as [|b bs]; [contradiction|].
+             cbn [data_of] in Heq. rewrite app_assoc in Heq.
+             assert (read buf ((Data (b :: bs) :: tr) ++ [Eof]) = read (buf ++ b :: bs) (tr ++ [Eof])) as Hrd.
+             { rewrite read_unfold, Hnone. reflexivity. }
+             rewrite Hrd.
+             assert (buf ++ b :: bs ++ data_of tr = concat (f :: fs') ++ firstn k g) as Heq'.
+             { cbn [concat]. rewrite <- app_assoc. rewrite <- Heq, <- app_assoc. reflexivity. }
+             destruct (IH (buf ++ b :: bs) (f :: fs') Hwf ltac:(rewrite <- app_assoc; exact Heq')) as
+               [[f0 [fs0 [buf' [tr' [pre [Hfs0 [Htr' [Hpre' [Hread Hinv]]]]]]]]]
+               |[[e0 [buf' [tr' [pre [Htr' [Hpre' [He0 [Hread Hinv]]]]]]]]
+                |[Hnil _]]]; [| |discriminate].
+             ++ left. exists f0, fs0, buf', tr', (Data (b :: bs) :: pre).
+                split; [exact Hfs0|]. split; [cbn [app]; congruence|].
+                split; [constructor; [exact I|exact Hpre']|]. split; assumption.
+             ++ right. left. exists e0, buf', tr', (Data (b :: bs) :: pre).
+                split; [cbn [app]; congruence|].
+                split; [constructor; [exact I|exact Hpre']|]. split; [exact He0|]. split; assumption.
+          -- right. left. exists (RdErr c), buf, tr, []. cbn [app data_of concat] in *.
+             rewrite read_unfold, Hnone. rewrite <- app_assoc. repeat split; auto.
+          -- right. left. exists Elapsed, buf, tr, []. cbn [app data_of concat] in *.
+             rewrite read_unfold, Hnone. rewrite <- app_assoc. repeat split; auto.
+  Qed.
+
+  Theorem session_frames_then_partial g k : wf g -> (k < length g)%nat -> forall fuel fs tr buf,
+    Forall wf fs -> Forall ev_ok tr -> buf ++ data_of tr = concat fs ++ firstn k g ->
+    (length fs + length tr < fuel)%nat ->
+    filter keep (session fuel buf (tr ++ [Eof]))
+      = concat (map expected_frame fs) ++ [Ret RDisconnected]
+    /\ filter (is_transient packet) (session fuel buf (tr ++ [Eof]))
+      = concat (map (transient_of packet) tr).
+  Proof.
+    intros Hg Hk. induction fuel as [|fuel IH]; intros fs tr buf Hwf Htr Heq Hfuel; [lia|].
+    cbn [Framed.session].
+    destruct (read_step_tail g k tr Hg Hk Htr buf fs Hwf Heq) as
+      [[f [fs' [buf' [tr' [pre [-> [-> [Hpre [Hread Hinv]]]]]]]]]
+      |[[e [buf' [tr' [pre [-> [Hpre [He [Hread Hinv]]]]]]]]
+       |[-> [Hdat [buf' Hread]]]]].
+    - rewrite Hread. destruct (expected_shape f) as [Hf [Hk' Ht]]. rewrite Hf.
+      inversion Hwf as [|? ? Hwf1 Hwf2]; subst.
+      apply Forall_app in Htr as [_ Htr'].
+      destruct (IH fs' tr' buf' Hwf2 Htr' Hinv) as [IH1 IH2].
+      { rewrite app_length in Hfuel. cbn [length] in Hfuel. lia. }
+      rewrite !filter_app, Hk', Ht, IH1, IH2. cbn [map concat app].
+      rewrite map_app, concat_app, (transients_data _ Hpre). cbn [app].
+      rewrite <- app_assoc. auto.
+    - rewrite Hread. destruct (transient_shape e He) as [Hf [Hk' Ht]]. rewrite Hf.
+      apply Forall_app in Htr as [_ Htr']. inversion Htr' as [|? ? _ Htr'']; subst.
+      destruct (IH fs tr' buf' Hwf Htr'' Hinv) as [IH1 IH2].
+      { rewrite app_length in Hfuel. cbn [length] in Hfuel. lia. }
+      rewrite !filter_app, Hk', Ht, IH1, IH2. cbn [app].
+      rewrite map_app, concat_app, (transients_data _ Hpre). cbn [map concat app]. auto.
+    - rewrite Hread. cbn. rewrite (transients_data _ Hdat). auto.
+  Qed.
+
   (* ---- C07: keep-alives are answered exactly once, before delivery, and only they are ---- *)
   Theorem deliver_pong_iff p :
     In (Wrote pong) (deliver p) <->
